@@ -1,7 +1,7 @@
 (* Extraction of the compiled-runtime model M3 (ExtrOcamlBasic only). Compiled by `./check setup`, not part of make. *)
 From Coq Require Import ExtrOcamlBasic.
-From Rex Require Import CompiledModel RunnerSym CheckSym Replay BufferSufficient ExportReplay ToTimings.
+From Rex Require Import CompiledModel RunnerSym CheckSym Replay BufferSufficient ExportReplay ToTimings ToTimingsExtra.
 Extraction Language OCaml.
 Set Extraction Output Directory ".".
 Extraction "cmodel.ml" Build_inst check_schedule buffer_need rollout_probe r_log win_model check_sym check_replay extra_ok sched_ok
-  Build_mentry tmpl_of to_timings check_mono to_timings_matches set_slots.
+  Build_mentry tmpl_of to_timings check_mono to_timings_matches set_slots tmpl_ok sup_covered.
